@@ -219,6 +219,7 @@ fn run_c14(t: &mut Tape, _tier: Tier) -> RunOut {
     mix.exec.spurious_one_in = 10;
     mix.exec.cancel_one_in = 25;
     mix.control_twin = true;
+    mix.body_fault_one_in = 8;
     mix.defect_kinds = faults::DEFECT_KINDS.to_vec();
     mix.max_defects = 2;
     mix.defect_p10 = 3;
@@ -272,7 +273,7 @@ pub fn registry() -> Vec<Profile> {
             id: "C02",
             title: "completeness",
             run: run_c02,
-            required: &["accept_header", "accept_query", "accept_folded", "accept_s3", "accept_token", "t_eq_lower", "t_eq_upper"],
+            required: &["accept_header", "accept_query", "accept_folded", "accept_s3", "accept_token", "accept_auth_params_in_form_body", "accept_authority_pseudo_header", "accept_absolute_form_target", "t_eq_lower", "t_eq_upper"],
             rule: "fault-free and benign-intermediary runs: reference-signed logical requests over arbitrary bytes in segments/names/values/bodies (repeated and prefix-related names, empty names/values), re-spelled on the wire (hex case, needless escapes, + vs %20, permutation, &&, dot segments, header case/spacing, Authorization parameter order, absolute-form target), server clock anywhere in the window incl. both bounds; non-trivial when benign noise or a benign header edit fired; distinct by shape hash as for C01",
             quick_secs: 25,
             thorough_secs: 300,
@@ -350,7 +351,7 @@ pub fn registry() -> Vec<Profile> {
             id: "C14",
             title: "provider protocol",
             run: run_c14,
-            required: &["exec_concurrent_tasks", "prov_pending_ge_2", "defective_request_with_provider_watching", "liveness_checked", "prov_keystore_refusal", "control_twin_compared", "prov_err[ExpiredToken]", "prov_err[MissingAuthenticationToken]", "prov_foreign[io::Error]", "prov_foreign[String]"],
+            required: &["exec_concurrent_tasks", "prov_pending_ge_2", "defective_request_with_provider_watching", "liveness_checked", "prov_keystore_refusal", "control_twin_compared", "body_transport_failed_first", "prov_err[ExpiredToken]", "prov_err[MissingAuthenticationToken]", "prov_foreign[io::Error]", "prov_foreign[String]"],
             rule: "1-6 concurrent tasks (each a sequence of validations reusing one provider instance; all instances clones of one key store) on the seeded executor; provider readiness/answer pending 0-5 polls with immediate, timer or withheld wake-ups, every SignatureError kind and five foreign error kinds at readiness or answer, key rotation, spurious polls, cancellation at any poll; requests valid or defective at any rule; non-trivial when a provider/executor fault fired; distinct interleavings = distinct hashes of the (task, seam, result) sequence",
             quick_secs: 25,
             thorough_secs: 360,
